@@ -22,6 +22,8 @@ VARIANTS = [
     V("time-dim-ctor-ignores-step", D, "    if samplerate is not None:\n        step = 1 / samplerate\n\n    if estimate_step and step is None:\n        step = estimate_dim_step(coods)\n\n    attrs = {\n        DimAttrs.units.value: TIME_UNITS,",
       "    if samplerate is not None:\n        step = 1 / samplerate\n    else:\n        step = None\n\n    if estimate_step and step is None:\n        step = estimate_dim_step(coods)\n\n    attrs = {\n        DimAttrs.units.value: TIME_UNITS,", "R15.3"),
     V("samples-none-reads-zero", I, "    if samples is None:\n        samples = -1\n", "    if samples is None:\n        samples = 0\n", "R15.2"),
+    V("boundary-dropped-when-unpadded", "src/soundevent/audio/spectrograms.py", "        boundary=boundary,  # type: ignore", "        boundary=boundary if padded else None,  # type: ignore", "R15.4"),
+    V("boundary-always-none", "src/soundevent/audio/spectrograms.py", "        boundary=boundary,  # type: ignore", "        boundary=None,", "R15.4"),
     # neutral
     V("N-math-floor", I, "    offset = int(np.floor(clip.start_time * samplerate))", "    import math\n\n    offset = math.floor(clip.start_time * samplerate)", None),
     V("N-rename-duration", I, "    duration = clip.end_time - clip.start_time\n    samples = int(np.floor(duration * samplerate))", "    length = clip.end_time - clip.start_time\n    samples = int(np.floor(length * samplerate))", None),
